@@ -460,6 +460,9 @@ func verifLemma_C12_tag_overlay_reads(v string, w string, x string) {
 func (w vListWorld) FindFeatureByID(id b6.FeatureID) b6.Feature {
 	for _, f := range w.fs {
 		if f.FeatureID() == id {
+			if g, ok := f.(Feature); ok {
+				return WrapFeature(g, w) // as a real world does: a relation comes back as a b6.RelationFeature
+			}
 			return f
 		}
 	}
@@ -701,4 +704,32 @@ func verifLemma_C13_basic_world_rejected_addition(v string) {
 
 func verifLemma_C13_overlay_world_rejected_addition(v string) {
 	verifHelper_C13_rejected(NewMutableOverlayWorld(vListWorld{}), v)
+}
+
+// C12 (bounded history): a plain key that exists only as an overlay modification can be
+// removed again, and plain modifications of a base feature survive a searchable tag being
+// set on it afterwards (which moves the feature into the overlay's own features).
+func verifLemma_C12_added_key_can_be_removed(v string) {
+	id2 := FromOSMRelationID(2).FeatureID()
+	base2 := &RelationFeature{RelationID: FromOSMRelationID(2), Tags: b6.Tags{{Key: "a", Value: b6.NewStringExpression("3")}}}
+	w := NewMutableOverlayWorld(vListWorld{fs: []b6.Feature{base2}})
+	verifrt.Assert(w.AddTag(id2, b6.Tag{Key: "k", Value: b6.NewStringExpression(v)}) == nil, "set-succeeds")
+	verifrt.Assert(w.FindFeatureByID(id2).Get("k").Value.String() == v, "new-key-is-visible")
+	verifrt.Assert(w.RemoveTag(id2, "k") == nil, "remove-succeeds")
+	verifrt.Assert(!w.FindFeatureByID(id2).Get("k").IsValid(), "key-added-through-the-overlay-can-be-removed-again")
+	verifrt.Assert(w.FindFeatureByID(id2).Get("a").Value.String() == "3", "base-tag-untouched")
+}
+
+func verifLemma_C12_plain_edits_survive_a_searchable_tag(v string, x string) {
+	id2 := FromOSMRelationID(2).FeatureID()
+	base2 := &RelationFeature{RelationID: FromOSMRelationID(2), Tags: b6.Tags{{Key: "a", Value: b6.NewStringExpression("3")}, {Key: "b", Value: b6.NewStringExpression("4")}}}
+	w := NewMutableOverlayWorld(vListWorld{fs: []b6.Feature{base2}})
+	verifrt.Assert(w.AddTag(id2, b6.Tag{Key: "k", Value: b6.NewStringExpression(v)}) == nil, "plain-set-succeeds")
+	verifrt.Assert(w.RemoveTag(id2, "b") == nil, "plain-remove-succeeds")
+	verifrt.Assert(w.AddTag(id2, b6.Tag{Key: "@wikidata", Value: b6.NewStringExpression(x)}) == nil, "searchable-set-succeeds")
+	f := w.FindFeatureByID(id2)
+	verifrt.Assert(f.Get("@wikidata").Value.String() == x, "searchable-tag-is-visible")
+	verifrt.Assert(f.Get("k").IsValid() && f.Get("k").Value.String() == v, "earlier-plain-set-survives")
+	verifrt.Assert(!f.Get("b").IsValid(), "earlier-plain-remove-survives")
+	verifrt.Assert(f.Get("a").Value.String() == "3", "base-tag-untouched")
 }
